@@ -6,6 +6,7 @@ use oxidize_pdf::parser::objects::{PdfDictionary, PdfName, PdfObject};
 use oxidize_pdf::parser::ParseOptions;
 use oxidize_pdf::text::TextEncoding;
 use std::panic;
+mod fontsubset;
 
 include!("/verif/hooks/specs_annexd.rs");
 
@@ -1096,6 +1097,26 @@ fn cmd_image_alpha() {
     println!("{{\"cmd\":\"image-alpha\",\"bound\":\"RGBA buffers of width 1..17 x height 1..3 x 4 alpha patterns (opaque, two binary, graded) -> image XObject + SMask decoded with byte-aligned rows; 6 PNG headers with extreme dimensions / bit depths\",\"evaluated\":{},\"disagreement_count\":{},\"disagreements\":[{}]}}", evaluated, n, bad.join(","));
 }
 
+// C12 Eb: synthetic TrueType fonts (400 glyphs; composites incl. nested ones and one using the font's last glyph; short and long
+// loca; with and without hinting programs of odd length) subset through subset_font for several character sets: every requested
+// character must keep its flattened outline and advance width, as read by an independent glyf/loca/hmtx reader.
+fn cmd_fontsubset() {
+    let sets: Vec<Vec<u16>> = vec![vec![1, 2, 6, 9, 10, 11, 12, 13, 14, 15, 16, 17], vec![1, 2, 5, 9, 10, 11, 12, 13, 14, 15, 16, 17], vec![5, 20, 21, 22, 23, 24, 25, 26, 27, 28, 29, 30],
+        vec![7, 30, 31, 32, 33, 34, 35, 36, 37, 38, 39, 40], vec![fontsubset::LAST_GID, 6, 31, 32, 33, 34, 35, 36, 37, 38, 39, 40], vec![3, 4, 8, 9, 12, 15, 18, 21, 24, 27, 30, 33, 36, 39]];
+    let mut evaluated = 0u64; let mut bad: Vec<String> = vec![];
+    for long_loca in [true, false] { for instr in [false, true] { for st in &sets {
+        evaluated += 1;
+        let st2 = st.clone();
+        let msg = std::sync::Arc::new(std::sync::Mutex::new(String::new())); let m2 = msg.clone();
+        let prev = panic::take_hook();
+        panic::set_hook(Box::new(move |info| { *m2.lock().unwrap() = info.to_string().chars().take(300).collect(); }));
+        let r = panic::catch_unwind(move || fontsubset::check(long_loca, instr, &st2));
+        panic::set_hook(prev);
+        if r.is_err() && bad.len() < 6 { bad.push(format!("{{\"loca\":\"{}\",\"odd_length_instructions\":{instr},\"glyphs\":{:?},\"problem\":{}}}", if long_loca { "long" } else { "short" }, st, js(&msg.lock().unwrap()))); }
+    } } }
+    println!("{{\"cmd\":\"fontsubset\",\"bound\":\"synthetic 400-glyph TrueType fonts x (short, long loca) x (no instructions, 3-byte instruction programs) x 6 character sets\",\"evaluated\":{},\"disagreements\":[{}]}}", evaluated, bad.join(","));
+}
+
 fn cmd_fmt() {
     // Ec: the concrete contracts of the R6 formatting stubs used by Verus units, over all 256 bytes
     let hd = |n: u8| if n < 10 { b'0' + n } else { b'A' + n - 10 };
@@ -1614,6 +1635,7 @@ fn main() {
         Some("a85hex-roundtrip") => cmd_a85hex_roundtrip(args.get(2).and_then(|s| s.parse().ok()).unwrap_or(4)),
         Some("fmt") => cmd_fmt(),
         Some("opnames") => cmd_opnames(),
+        Some("fontsubset") => cmd_fontsubset(),
         Some("image-alpha") => cmd_image_alpha(),
         Some("crypto-ref") => cmd_crypto_ref(args.get(2).and_then(|s| s.parse().ok()).unwrap_or(120)),
         Some("pageops") => cmd_pageops(),
